@@ -401,3 +401,110 @@ def run(res, facts, tier):
     own = c19_own.run_rules(res, facts, tier)
     c19_own.r8_handover(res, facts, own)
     c19_own.r9_destruct_only(res, facts)
+
+
+# ----------------------------------------------------------------------------------------------- R10: a constructed object reaches an owner on every path
+R10_REVIEWED = {}
+
+
+def r10_construct_to_owner(res, facts):
+    """XalanConstruct(manager, p, ...) allocates from the manager and constructs into the local pointer p.  From there to every normal exit of the function the pointer
+    itself must go somewhere: into a call (push_back, an owner's setter, a guard's constructor), into a member or another variable, back to the caller, or through the
+    destroying helpers.  A path that only looks at the object (p->...) and returns drops the only reference: the storage never goes back to the manager."""
+    r = res.rule('C19-R10', 'every object made by XalanConstruct into a local pointer is, on every path to a normal exit of the function, handed on (argument of a call, stored, '
+                 'returned) or destroyed; a path that returns after only dereferencing it leaks the object from the pluggable manager', floor=8)
+    n = 0
+    for k in facts.astidx:
+        f = facts.F.get(k)
+        if not f or '/src/xalanc/' not in f.get('loc', '') or '/Harness/' in f.get('loc', '') or '/Tests/' in f.get('loc', ''):
+            continue
+        a = facts.ast(k)
+        if a is None or a.get('body') is None:
+            continue
+        sites = [c for c in calls(a['body']) if (c.get('n') or callee(c).split('::')[-1].split('<')[0]) == 'XalanConstruct' and len(c.get('args', [])) >= 2]
+        if not sites:
+            continue
+        cfg = CFG(a)
+        for c in sites:
+            tgt = strip_casts(c['args'][1])
+            if tgt.get('k') != 'Ref' or tgt.get('d') != 'local':
+                continue
+            vid = tgt['id']
+            n += 1
+            site = '%s: %s' % (short(facts.sig(k)), tgt['n'])
+            start = [nd for nd in cfg.nodes if nd.ast is not None and any(x is c for x in walk(nd.ast))]
+            if not start:
+                continue
+            top = strip_casts(start[0].ast)
+            if top is not c:
+                # the value of the call (the constructed pointer) is itself used: returned, assigned or passed on
+                r.ok(site, 'the result of XalanConstruct is used directly')
+                continue
+
+            def consumes(nd):
+                if nd.ast is None:
+                    return False
+                for x in walk(nd.ast):
+                    kk = x.get('k')
+                    if kk in ('Call', 'MCall', 'Ctor', 'OpCall'):
+                        if x is c:
+                            continue
+                        for arg in x.get('args', []):
+                            t = strip_casts(arg)
+                            while t is not None and t.get('k') == 'Un' and t['op'] == '*':
+                                t = strip_casts(t['e'])
+                            if t is not None and t.get('k') == 'Ref' and t.get('id') == vid:
+                                # p->f() passes nothing on; f(p) / f(*p) does
+                                if kk == 'OpCall' and x.get('op') in ('->', '*') and len(x['args']) == 1:
+                                    continue
+                                return True
+                    if kk == 'Bin' and x['op'] == '=':
+                        t = strip_casts(x['rhs'])
+                        if t is not None and t.get('k') == 'Ref' and t.get('id') == vid:
+                            return True
+                    if kk == 'Return' and x.get('e') is not None:
+                        t = strip_casts(x['e'])
+                        if t is not None and t.get('k') == 'Ref' and t.get('id') == vid:
+                            return True
+                    if kk == 'Decl':
+                        for v in x.get('vars', []):
+                            t = strip_casts(v['init']) if v.get('init') is not None else None
+                            if t is not None and t.get('k') == 'Ref' and t.get('id') == vid:
+                                return True
+                return False
+            seen = set()
+            st = [s2 for s0 in start for s2 in s0.succ]
+            leak = None
+            while st:
+                nd = st.pop()
+                if nd.id in seen:
+                    continue
+                seen.add(nd.id)
+                if consumes(nd):
+                    continue
+                if nd is cfg.exit:
+                    leak = nd
+                    break
+                if nd.ast is not None and nd.ast.get('k') == 'Return':
+                    leak = nd
+                    break
+                st.extend(nd.succ)
+            if site in R10_REVIEWED:
+                r.ok(site, 'reviewed: ' + R10_REVIEWED[site])
+            elif leak is None:
+                r.ok(site, 'handed on or destroyed on every path')
+            else:
+                r.violation(site, 'a path from the XalanConstruct call reaches %s without the pointer being handed to an owner, stored, returned or destroyed: the object stays '
+                            'allocated from the manager for ever' % ('a return at line %s' % leak.ast.get('l') if leak.ast is not None else 'the end of the function'),
+                            common.file_line(a, leak.ast if leak.ast is not None else c))
+    if n < 8:
+        raise AnalysisBroken('only %d XalanConstruct sites with a local pointer found' % n)
+    return r
+
+
+_run_c19_prev10 = run
+
+
+def run(res, facts, tier):
+    _run_c19_prev10(res, facts, tier)
+    r10_construct_to_owner(res, facts)
